@@ -151,9 +151,13 @@ def stepOp (m : Mgr) : Op → Mgr × List Fire × Bool
   | .unplan i => (m.unplan i, [], true)
   | .exec now cb fuel => execLoop cb now fuel 0 m
 
-def runOps (m : Mgr) : List Op → Mgr
-  | [] => m
-  | op :: ops => runOps (stepOp m op).1 ops
+/-- run a history: final manager, the callbacks of every operation, and whether every `exec` returned -/
+def runOps (m : Mgr) : List Op → Mgr × List (List Fire) × Bool
+  | [] => (m, [], true)
+  | op :: ops =>
+    let r := stepOp m op
+    let r' := runOps r.1 ops
+    (r'.1, r.2.1 :: r'.2.1, r.2.2 && r'.2.2)
 
 /-! ### stimer (igris/datastruct/stimer.c) -/
 
